@@ -438,6 +438,26 @@ func checkOneInterceptedParse(t *fw.T, src string, rd *gen.Rendered, s *icStack,
 			}
 		}
 	}
+	// --- once per parse step, also on malformed input and after errors: every entry of a statement list of the returned
+	// tree (program, blocks, function bodies - at any depth) is the result of one statement step, so each statement
+	// interceptor has run at least that often, whatever was reported before the step
+	if s.nStmt > 0 && passKind['s'] && run.out.Prog != nil {
+		nList := 0
+		t.Guard("count list statements", wit, func() { nList = countListStatements(run.out.Prog) })
+		per := map[int]int{}
+		for _, e := range run.events {
+			if e.kind == 's' {
+				per[e.idx]++
+			}
+		}
+		for i := 0; i < s.nStmt; i++ {
+			if per[i] < nList {
+				t.Violate("statement-steps-not-offered", fmt.Sprintf("errors=%v", len(run.out.Errors) > 0), fmt.Sprintf("statement interceptor #%d ran %d times, but the returned tree holds %d statements in its statement lists (each the result of a statement step; %d errors reported): %q", i, per[i], nList, len(run.out.Errors), clip(src, 160)), wit())
+				return false
+			}
+		}
+		t.Count("parses_with_statement_steps_counted_against_the_tree", 1)
+	}
 	if s.nTok > 0 && rep <= 0 {
 		// the lexer driven directly: every request for a token - also the requests at and after end of input - goes
 		// through every token interceptor exactly once (a plugin may turn end-of-input into synthetic tokens)
@@ -950,4 +970,43 @@ func init() {
 			}},
 		},
 	})
+}
+
+// countListStatements: number of entries in all statement lists of the tree (reflective walk, any depth).
+func countListStatements(root any) int {
+	n := 0
+	seen := 0
+	var walk func(v reflect.Value)
+	walk = func(v reflect.Value) {
+		seen++
+		if seen > 3_000_000 {
+			return
+		}
+		switch v.Kind() {
+		case reflect.Interface, reflect.Ptr:
+			if !v.IsNil() {
+				walk(v.Elem())
+			}
+		case reflect.Struct:
+			if tn := v.Type().Name(); tn == "Token" || tn == "Position" {
+				return
+			}
+			for i := 0; i < v.NumField(); i++ {
+				if !v.Type().Field(i).IsExported() {
+					continue
+				}
+				f := v.Field(i)
+				if f.Kind() == reflect.Slice && f.Type().Elem() == stmtIface {
+					n += f.Len()
+				}
+				walk(f)
+			}
+		case reflect.Slice:
+			for j := 0; j < v.Len(); j++ {
+				walk(v.Index(j))
+			}
+		}
+	}
+	walk(reflect.ValueOf(root))
+	return n
 }
